@@ -476,6 +476,18 @@ def _proc_inlinable(fn: ast.AST, tail: bool) -> bool:
     return True
 
 
+def _small_procedure(fn: ast.AST) -> bool:
+    if not isinstance(fn, ast.FunctionDef) or not fn.name.startswith("_") or fn.name.startswith("__"):
+        return False
+    body = [s_ for s_ in fn.body if not (isinstance(s_, ast.Expr) and isinstance(s_.value, ast.Constant))]
+    n_stmts = sum(1 for s_ in body for x in ast.walk(s_) if isinstance(x, ast.stmt))
+    if n_stmts > 6 or not body:
+        return False
+    if any(isinstance(x, (ast.For, ast.While, ast.Try, ast.With, ast.Match)) for s_ in body for x in ast.walk(s_)):
+        return False
+    return not _has_early_return(fn)
+
+
 def _has_early_return(fn: ast.FunctionDef) -> bool:
     body = [s_ for s_ in fn.body if not (isinstance(s_, ast.Expr) and isinstance(s_.value, ast.Constant))]
     for i, s_ in enumerate(body):
